@@ -21,8 +21,11 @@ package getty
 
 import (
 	"sync/atomic"
+	"time"
 
 	getty "github.com/apache/dubbo-getty"
+
+	"seata.apache.org/seata-go/pkg/protocol/message"
 )
 
 // Read-only accessors for the verification harness (build tag "verif"); no behaviour change.
@@ -61,4 +64,34 @@ func VerifSessions() (open, closed int, counter int32) {
 		return true
 	})
 	return open, closed, atomic.LoadInt32(&sessionManager.sessionSize)
+}
+
+// verifWriteFault, when set, is asked before the package write of every outgoing message; a non-nil error is
+// returned by the write instead of performing it (fault injection: a write that fails on a live session).
+var verifWriteFault atomic.Value // func(message.RpcMessage) error
+
+// VerifSetWriteFault installs (or, with nil, removes) the write fault decision function.
+func VerifSetWriteFault(f func(msg message.RpcMessage) error) {
+	if f == nil {
+		f = func(message.RpcMessage) error { return nil }
+	}
+	verifWriteFault.Store(f)
+}
+
+type verifFaultySession struct {
+	getty.Session
+	err error
+}
+
+func (s *verifFaultySession) WritePkg(pkg interface{}, timeout time.Duration) (int, int, error) {
+	return 0, 0, s.err
+}
+
+func verifWrapSession(session getty.Session, msg message.RpcMessage) getty.Session {
+	if f, ok := verifWriteFault.Load().(func(message.RpcMessage) error); ok && f != nil {
+		if err := f(msg); err != nil {
+			return &verifFaultySession{Session: session, err: err}
+		}
+	}
+	return session
 }
